@@ -16,7 +16,7 @@ GEN_EXPR = "prqlc/prqlc/src/sql/gen_expr.rs"
 LEXER = "prqlc/prqlc-parser/src/lexer/mod.rs"
 LR = "prqlc/prqlc-parser/src/lexer/lr.rs"
 
-LABELS = ["TL1s", "TL1r", "TL1i", "TL1b", "TL1n", "TL1f", "LN1", "LN2", "LN3", "EI1", "FM1", "FM2"]
+LABELS = ["TL1s", "TL1r", "TL1i", "TL1b", "TL1n", "TL1f", "LN1", "LN2", "LN3", "EI1", "FM1", "FM2", "NE1"]
 FUNCTIONS = ["translate_literal", "number_literal_slice", "expr_of_i64", "format_slice"]
 RLIMIT = 60
 
@@ -25,7 +25,7 @@ ASSUMED = [
     {"what": "sqlparser Value is a skeleton generated from the pinned sqlparser source (String / bool payloads kept); `.into()` (Value -> ValueWithSpan) "
              "is with_empty_span: the value is kept. sqlparser 0.60's Display of SingleQuotedString (value.rs EscapeQuotedString) prints a quote that is followed by a quote, "
              "or preceded by a backslash, AS IT IS and doubles only the others - so the payload must already have every quote doubled (sql_quoted()), which Display then "
-             "leaves unchanged; str::replace('\\'', \"''\") doubles every quote (str_double_quotes)", "keys": ["fn with_empty_span", "fn str_double_quotes", "spec fn sql_quoted"]},
+             "leaves unchanged; str::replace('\\'', \"''\") doubles every quote (str_double_quotes)", "keys": ["fn with_empty_span", "fn str_double_quotes", "spec fn sql_quoted", "fn strip_minus"]},
     {"what": "sqlformat::format only changes white space between tokens (same_tokens) PROVIDED no quote of the text is preceded by a backslash - its tokenizer reads "
              "\\' and \\\" as escaped quotes whatever the dialect (sqlformat 0.3.5 tokenizer.rs get_string_token) and otherwise re-spaces what follows; str::contains is "
              "substring search; `formatted + \"\\n\"` appends a newline",
@@ -66,6 +66,17 @@ pub fn parse_f64(s: &String) -> (r: Result<f64, OpaqueT>) ensures match as_f64(s
 
 #[verifier::external_body] pub fn i64_to_string(i: i64) -> (r: String) ensures r@ == int_text(i), { unimplemented!() }
 #[verifier::external_body] pub fn i64_leading_zeros(i: i64) -> (r: u32) ensures r <= 64, r < 32 <==> (i < 0 || i >= 0x1_0000_0000), { unimplemented!() }
+// ORACLE (C02 / C07): no literal expression may START with a sign - `-` directly before it would read `--`, a comment
+pub open spec fn plain_number(e: sql_ast::Expr, t: Seq<char>) -> bool {
+    e is Value && e->Value_0.value is Number && e->Value_0.value->Number_0@ == t && !e->Value_0.value->Number_1
+}
+pub open spec fn sql_number(e: sql_ast::Expr, t: Seq<char>) -> bool {
+    if t.len() > 0 && t[0] == '-' { e is UnaryOp && e->UnaryOp_op is Minus && plain_number(*e->UnaryOp_expr, t.skip(1)) } else { plain_number(e, t) }
+}
+#[verifier::external_body]
+pub fn strip_minus(t: &String) -> (r: Option<String>)
+    ensures (t@.len() > 0 && t@[0] == '-') ==> (r is Some && r->0@ == t@.skip(1)), !(t@.len() > 0 && t@[0] == '-') ==> r is None,
+{ unimplemented!() }
 pub uninterp spec fn sql_quoted(s: Seq<char>) -> Seq<char>;      // s with every single quote doubled
 #[verifier::external_body] pub fn str_double_quotes(s: &String) -> (r: String) ensures r@ == sql_quoted(s@), { unimplemented!() }
 pub uninterp spec fn same_tokens(a: Seq<char>, b: Seq<char>) -> bool;   // equal up to white space between tokens
@@ -91,7 +102,7 @@ def build(X):
     value = X.external_enum("sqlparser-0.60.0", "src/ast/value.rs", "Value", keep=["String", "bool"])
     sql_mod = ("pub mod sql_ast {\n    use super::*;\n" + value.text + "\n    pub struct ValueWithSpan { pub value: Value }\n"
                "    impl Value { #[verifier::external_body] pub fn with_empty_span(self) -> (r: ValueWithSpan) ensures r.value == self, { unimplemented!() } }\n"
-               "    pub enum Expr { Value(ValueWithSpan), Other(OpaqueT) }\n}\nuse sql_ast::Value;\n"
+               "    pub enum UnaryOperator { Plus, Minus, Not }\n    pub enum Expr { Value(ValueWithSpan), UnaryOp { op: UnaryOperator, expr: Box<Expr> }, Other(OpaqueT) }\n}\nuse sql_ast::Value;\nuse sql_ast::UnaryOperator;\n"
                "#[verifier::external_body]\npub fn translate_other_literal(l: Literal, ctx: &Context) -> (r: Result<sql_ast::Expr, Error>) { unimplemented!() }\n")
 
     tl = X.fn(GEN_EXPR, "translate_literal").pub_all()
@@ -106,18 +117,30 @@ def build(X):
     tl.rewrite_re("R5", r'format!\("\{f:\?\}"\)', "fmt_float(f)", count=None, why="format!")
     tl.rewrite_re("R5", r'format!\("\{i\}"\)', "fmt_int(i)", count=None, why="format!")
     tl.shim_str_predicates()
+    try:
+        ne = X.fn(GEN_EXPR, "number_expr").pub_all()
+    except ExtractionError:
+        ne = None
+    if ne is not None:
+        ne.rewrite_re("R5", r"\btext\.strip_prefix\('-'\)", "strip_minus(&text)", count=None, why="str::strip_prefix('-')")
+        ne.rewrite_re("R5", r"\babs\.to_string\(\)", "abs", count=None, why="to_string of an owned String")
+        ne.rewrite_re("R5", r"\.into\(\)", ".with_empty_span()", count=None, why="Value -> ValueWithSpan conversion keeps the value")
+        ne.ret_name("r")
+        ne.contract("ensures sql_number(r, text@), // @NE1")
+        ne_text = ne.text
+    else:
+        ne_text = "// no fn number_expr in gen_expr.rs on this tree // @NE1\n"
     tl.ret_name("r")
     tl.contract("""
         ensures
             // C08: a string literal is emitted as a single-quoted SQL string whose payload is the content with every quote doubled (what a SQL lexer reads back as the content)
             (l is String && r is Ok) ==> (r->Ok_0 is Value && r->Ok_0->Value_0.value is SingleQuotedString && r->Ok_0->Value_0.value->SingleQuotedString_0@ == sql_quoted(l->String_0@)), // @TL1s
             (l is RawString && r is Ok) ==> (r->Ok_0 is Value && r->Ok_0->Value_0.value is SingleQuotedString && r->Ok_0->Value_0.value->SingleQuotedString_0@ == sql_quoted(l->RawString_0@)), // @TL1r
-            (l is Integer && r is Ok) ==> (r->Ok_0 is Value && r->Ok_0->Value_0.value is Number && r->Ok_0->Value_0.value->Number_0@ == int_text(l->Integer_0)
-                && !r->Ok_0->Value_0.value->Number_1), // @TL1i
+            // a number is printed as its std text; a NEGATIVE one as a unary minus applied to the magnitude, so that the precedence rules see the sign
+            (l is Integer && r is Ok) ==> sql_number(r->Ok_0, int_text(l->Integer_0)), // @TL1i
             (l is Boolean && r is Ok) ==> r->Ok_0 == sql_ast::Expr::Value(sql_ast::ValueWithSpan { value: Value::Boolean(l->Boolean_0) }), // @TL1b
             (l is Null && r is Ok) ==> r->Ok_0 == sql_ast::Expr::Value(sql_ast::ValueWithSpan { value: Value::Null }), // @TL1n
-            (l is Float && r is Ok) ==> (r->Ok_0 is Value && r->Ok_0->Value_0.value is Number && r->Ok_0->Value_0.value->Number_0@ == float_text(l->Float_0)
-                && !r->Ok_0->Value_0.value->Number_1), // @TL1f
+            (l is Float && r is Ok) ==> sql_number(r->Ok_0, float_text(l->Float_0)), // @TL1f
     """)
 
     # ---- lexer: digits -> Literal
@@ -168,7 +191,7 @@ def build(X):
                "        !options_format ==> sql == sql0, // @FM2\n"
                "{\n    let sql = sql0;\n    proof { axiom_format_safe(sql@); axiom_same_refl(sql@); }\n    " + fm.text + "\n    sql\n}\n")
     fm.rewrites.append({"rule": "slice", "what": "the `let sql = if options.format .. ;` statement of sql::compile wrapped as fn format_slice(sql, options.format)"})
-    return PRELUDE + lit.text + "\n" + sql_mod + tl.text + "\n" + num.text + "\n" + ei.text + "\n" + fm.text + "\n} // verus!\nfn main() {}\n"
+    return PRELUDE + lit.text + "\n" + sql_mod + ne_text + "\n" + tl.text + "\n" + num.text + "\n" + ei.text + "\n" + fm.text + "\n} // verus!\nfn main() {}\n"
 
 
 # ----------------------------------------------------------------------------- replay / sweep on the real compiler + SQLite
